@@ -114,6 +114,23 @@ Proof.
 Qed.
 Print Assumptions C17_environment_placeholder.
 
+(* (3) Placeholders that cannot be right, wherever the decoder reaches them: ${property:FILE} without "#KEY" names no
+   property (an error since fix 502dfdc; a panic before); a placeholder that is the whole value of a position that is
+   not a scalar -- a struct, a list, a map, a component -- is an error whatever the variable holds. *)
+Theorem C17_hopeless_placeholders :
+  forall env prop orc orcq reg lz uq,
+  (forall p s cur v s' tags d var,
+     reach reg lz uq p [] s cur v = Some (s', tags, d, VStr (ph_tagged s_property var)) ->
+     simple_name var = true -> no_hash var = true ->
+     forall F c, notok (decode env prop orc orcq reg lz F s c v))
+  /\
+  (forall p s cur v s' tags d name,
+     reach reg lz uq p [] s cur v = Some (s', tags, d, VStr (ph_env name)) ->
+     simple_name name = true -> non_scalar s' = true ->
+     forall F c, notok (decode env prop orc orcq reg lz F s c v)).
+Proof. intros. split; [apply placeholder_prop_nokey_at|apply placeholder_non_scalar_at]. Qed.
+Print Assumptions C17_hopeless_placeholders.
+
 (* ---- non-vacuity, on the generated schema: a pool whose ammo is an http provider *)
 Definition rx_plug (name : str) (kvs : list (str * value)) : value := VMap ((s_type, VStr name) :: kvs).
 Definition k_file : str := [102;105;108;101].
@@ -170,5 +187,9 @@ Example C17_environment_example :
   /\ env_of_list rx_envl [65;49;54;95;79;75] = Some [47;120]
   /\ simple_name n_id = true
   /\ rx_ph (rx_run (rx_cfg (rx_plug n_uri [(k_file, VStr (ph_env n_id))]))) = true
-  /\ rx_ok (rx_run (rx_cfg (rx_plug n_uri [(k_file, VStr (ph_env [65;49;54;95;79;75]))]))) = true.
+  /\ rx_ok (rx_run (rx_cfg (rx_plug n_uri [(k_file, VStr (ph_env [65;49;54;95;79;75]))]))) = true
+  (* the set variable as the whole `uris` list / the whole ammo component; a property placeholder without #KEY *)
+  /\ rx_ph (rx_run (rx_cfg (rx_plug n_uri [(k_uris, VStr (ph_env [65;49;54;95;79;75]))]))) = true
+  /\ rx_ph (rx_run (rx_cfg (VStr (ph_env [65;49;54;95;79;75])))) = true
+  /\ rx_ph (rx_run (rx_cfg (rx_plug n_uri [(k_file, VStr (ph_tagged s_property [102]))]))) = true.
 Proof. vm_compute. repeat split; reflexivity. Qed.
